@@ -54,10 +54,10 @@ class Act:
 # ---------------------------------------------------------------------------
 # C18
 # ---------------------------------------------------------------------------
-def expected_updates(timetable, cyclical, horizon):
-    """[(time, state)] by left-to-right addition of the durations."""
+def expected_updates(timetable, cyclical, horizon, t0=0):
+    """[(time, state)] by left-to-right addition of the durations, starting when the scheduler is initialised."""
     out = []
-    t = 0
+    t = t0
     i = 0
     n = len(timetable)
     while t <= horizon and len(out) < 100000:
@@ -98,29 +98,54 @@ class SchedRunner(Base):
         self.override = override
         for k in range(case['n_objs']):
             self.objs[k] = Obj(k)
-        for si, sc in enumerate(case['scheds']):
+        horizon = sum(case['plan'])
+        self.expected = [None] * len(case['scheds'])
+        self.seen_rec = [0] * len(case['scheds'])
+        self.exp_calls = []
+        self.calls_seen = 0
+
+        def create(si, sc):
             tt = [tuple(x) for x in sc['timetable']]
             kw = {}
             if sc['cyclical'] is not None:
                 kw['is_cyclical'] = sc['cyclical']
+            self.expected[si] = expected_updates(sc['timetable'], sc['cyclical'] is not False, horizon, env.now)
             s = HSched(tt, name=f'sched{si}', **kw)
             s.sidx = si
-            self.scheds.append(s)
-            self.registry.append([])
+            self.scheds[si] = s
+            if system._simulation_is_initialized:
+                # created late: it starts at once, before anything can be registered with it
+                self.bump('late_created_scheduler')
+                self.check(env, None)
             for k, ov in sc.get('pre', []):
                 self.do_register(si, k, ov)
+
+        between = []
+        for si, sc in enumerate(case['scheds']):
+            self.scheds.append(None)
+            self.registry.append([])
+            ca = sc.get('create_at')
+            if ca is None:
+                create(si, sc)
+            elif ca == 'between':
+                between.append((si, sc))
+            else:
+                env.schedule_event(ca[0], -2, Act(lambda si=si, sc=sc: create(si, sc), f'mk_sched{si}'), ca[1], 'mk')
         for i, op in enumerate(case['ops']):
             env.schedule_event(op['t'], -2, Act(lambda op=op: self.exec_op(op), f'sched_op{i}'), op['pr'], f'op{i}')
-        self.seen_rec = [0] * len(self.scheds)
-        self.exp_calls = []
-        self.calls_seen = 0
-        horizon = sum(case['plan'])
-        self.expected = [expected_updates(sc['timetable'], sc['cyclical'] is not False, horizon) for sc in case['scheds']]
-        for dur in case['plan']:
+        for pi, dur in enumerate(case['plan']):
             system.simulate(dur, print_summary=False)
             self.stats['sim_time'] += dur
             self.check(env, None)
+            if pi == 0:
+                for si, sc in between:
+                    create(si, sc)
+        for si, sc in between:
+            if self.scheds[si] is None:
+                create(si, sc)
         for si, s in enumerate(self.scheds):
+            if s is None:
+                continue
             got = env.simulation_data.get('schedule_update', {}).get(s.name, [])
             exp = [x for x in self.expected[si] if x[0] <= env.now]
             if list(got) != exp:
@@ -146,6 +171,8 @@ class SchedRunner(Base):
 
     def exec_op(self, op):
         si, k = op['s'], op['obj']
+        if self.scheds[si] is None:
+            return
         if op['op'] == 'register':
             self.do_register(si, k, op.get('ov', False))
             self.bump('register_during_run')
@@ -161,6 +188,8 @@ class SchedRunner(Base):
     def check(self, env, e, init=False):
         sd = env.simulation_data
         for si, s in enumerate(self.scheds):
+            if s is None:
+                continue
             recs = sd.get('schedule_update', {}).get(s.name, [])
             new = recs[self.seen_rec[si]:]
             for r in new:
@@ -208,7 +237,13 @@ def gen_sched(rng):
                 pre.append([k, rng.random() < 0.4])
         if pre and rng.random() < 0.2:
             pre.append(list(pre[0]))      # duplicate registration: must be ignored
-        scheds.append({'timetable': tt, 'cyclical': cyc, 'pre': pre})
+        sc = {'timetable': tt, 'cyclical': cyc, 'pre': pre}
+        x = rng.random()
+        if x < 0.15:
+            sc['create_at'] = [rng.choice((0.25, 0.5, 1, 2.5)), rng.choice((2, 5, 11, 11.5))]
+        elif x < 0.25:
+            sc['create_at'] = 'between'
+        scheds.append(sc)
     horizon = rng.choice((3, 10, 25, 60))
     ops = []
     if n_objs:
@@ -217,7 +252,7 @@ def gen_sched(rng):
                         'pr': rng.choice((10, 10.5, 11, 11, 11.5, 5)), 'op': rng.choice(('register', 'unregister')),
                         's': rng.randrange(len(scheds)), 'obj': rng.randrange(n_objs), 'ov': rng.random() < 0.4})
     ops.sort(key=lambda o: (o['t'], -o['pr']))
-    plan = [horizon] if rng.random() < 0.7 else [horizon * 0.25, horizon * 0.75]
+    plan = [horizon] if (rng.random() < 0.7 and not any(sc.get('create_at') == 'between' for sc in scheds)) else [horizon * 0.25, horizon * 0.75]
     return {'engine': 'schedsim', 'kind': 'sched', 'n_objs': n_objs, 'scheds': scheds, 'ops': ops, 'plan': plan,
             'tiebreak': core.gen_tiebreak(rng), 'id_offset': rng.choice((0, 9))}
 
